@@ -149,7 +149,10 @@ let () =
           let (out, oc) = run fo (nat_of_int (int_of_string fuel)) p in
           let st = match oc with Finished -> "ok" | Failed e -> "err " ^ err_s e | Diverged -> "fuel" in
           Printf.printf "%s |%s\n" st (String.concat "" (List.map (fun l -> " " ^ hex (sc l)) out))
-        with Failure m -> Printf.printf "bad %s\n" m | Not_found -> print_endline "bad notfound")
+        with Failure m -> Printf.printf "bad %s\n" m | Not_found -> print_endline "bad notfound"
+           (* the extracted evaluator is not tail recursive: a program building very long strings or running very deep
+              exhausts the native stack; reported like exhausted fuel (no verdict) *)
+           | Stack_overflow -> print_endline "fuel |")
     | "ccheck" :: _ ->
         let src = String.sub line 7 (String.length line - 7) in
         (try
